@@ -140,7 +140,11 @@ func (e *Engine) Generate(r *core.Rand, prop string, tier string) core.Trace {
 			in.Name = "store"
 			w := []int{1, 2, 4, 8}[r.Intn(4)]
 			in.Effs = []Eff{{Mem: g.mem(), W: w, Val: g.operand(8), Addr: g.addrExpr()}}
-			if r.Chance(1, 5) { // store pair: two writes, mostly into the same space
+			if r.Chance(1, 6) { // read-modify-write of one location by an ordinary instruction
+				in.Name = "rmw"
+				m, a := in.Effs[0].Mem, in.Effs[0].Addr
+				in.Effs = []Eff{{Mem: m, W: w, Val: refeval.BinJ(int(expr.Add), refeval.MemJ(m, a, w), g.operand(w), w), Addr: a}}
+			} else if r.Chance(1, 5) { // store pair: two writes, mostly into the same space
 				in.Name = "store-pair"
 				m := in.Effs[0].Mem
 				if r.Chance(1, 4) {
@@ -203,6 +207,22 @@ func (e *Engine) Generate(r *core.Rand, prop string, tier string) core.Trace {
 				l := uint64(in.Len)
 				in.Effs = []Eff{{Reg: ipKey, W: 8, Val: refeval.BinJ(int(expr.Add), refeval.ConstU(in.Addr, 8),
 					refeval.LessJ(refeval.RegJ(g.reg(), 8), refeval.RegJ(g.reg(), 8), refeval.ConstU(l, 8), refeval.ConstU(l, 8), 8), 8)}}
+			}
+			if r.Chance(1, 6) {
+				// the same, with two nests of conditions whose combinations
+				// are many (5 x 4) and all add up to the next address
+				in.Name = "branch-next-many-ways"
+				l := uint64(in.Len)
+				a := uint64(r.Intn(int(l) + 1))
+				nest := func(n int, v uint64) *refeval.J {
+					x := refeval.ConstU(v, 8)
+					for k := 1; k < n; k++ {
+						x = refeval.LessJ(refeval.RegJ(g.reg(), 8), refeval.RegJ(g.reg(), 8), refeval.ConstU(v, 8), x, 8)
+					}
+					return x
+				}
+				in.Effs = []Eff{{Reg: ipKey, W: 8, Val: refeval.BinJ(int(expr.Add), refeval.ConstU(in.Addr, 8),
+					refeval.BinJ(int(expr.Add), nest(5, a), nest(4, l-a), 8), 8)}}
 			}
 			if r.Chance(1, 3) {
 				in.Effs = append(in.Effs, Eff{Reg: g.reg(), W: 8, Val: g.operand(8)})
